@@ -16,6 +16,7 @@ import Atomman.C12
 import Proofs.C12_Lemmas
 import Proofs.C12_Cov
 import Proofs.C12_Analysis
+import Proofs.C12_Units
 import Mathlib.Tactic.Ring
 import Mathlib.Tactic.LinearCombination
 import Mathlib.Tactic.FieldSimp
